@@ -4,10 +4,20 @@ open Util
 
 exception Bad of string
 
+let kind_of_string = function
+  | "AND" -> K_AND | "OR" -> K_OR | "PIPE" -> K_PIPE | "LPAREN" -> K_LPAREN | "RPAREN" -> K_RPAREN | "LAE" -> K_LAE | "RAE" -> K_RAE
+  | "BREAK" -> K_BREAK | "AMP" -> K_AMP | "SEMI" -> K_SEMI | "LT" -> K_LT | "GT" -> K_GT | "CLOBBER" -> K_CLOBBER | "APPEND" -> K_APPEND
+  | "HEREDOC" -> K_HEREDOC | "HEREDOCI" -> K_HEREDOCI | "DUPIN" -> K_DUPIN | "DUPOUT" -> K_DUPOUT | "RDWR" -> K_RDWR
+  | "IONUM" -> K_IONUM | "WORD" -> K_WORD | "NAME" -> K_NAME | "ASSIGN" -> K_ASSIGN | "BANG" -> K_BANG | "LBRACE" -> K_LBRACE
+  | "RBRACE" -> K_RBRACE | "FOR" -> K_FOR | "CASE" -> K_CASE | "ESAC" -> K_ESAC | "IN" -> K_IN | "IF" -> K_IF | "ELIF" -> K_ELIF
+  | "THEN" -> K_THEN | "ELSE" -> K_ELSE | "FI" -> K_FI | "WHILE" -> K_WHILE | "UNTIL" -> K_UNTIL | "DO" -> K_DO | "DONE" -> K_DONE
+  | "NL" -> K_NL
+  | s -> raise (Bad ("token kind " ^ s))
+
 (* ---- parsing the word skeleton text back into an mword *)
 let is_hex c = (c >= '0' && c <= '9') || (c >= 'a' && c <= 'f')
 
-let parse_word (s : string) (i : int ref) : mpart list option =
+let rec parse_word (s : string) (i : int ref) : mpart list option =
   let n = String.length s in
   let peek () = if !i < n then s.[!i] else '\000' in
   let eat c = if peek () = c then incr i else raise (Bad (Printf.sprintf "expected %c at %d in %s" c !i s)) in
@@ -46,6 +56,15 @@ let parse_word (s : string) (i : int ref) : mpart list option =
       let w = word () in
       eat '}';
       MParam (br, name, op, w)
+    | 'C' when !i + 2 < n && s.[!i + 2] = '<' -> incr i;
+      (* a nested program given by its tokens: the model computes the skeleton of its commands *)
+      let d = peek () = 'd' in
+      incr i; incr i;
+      let toks, hs = parse_prog s i in
+      eat '>';
+      (match parse_subst toks hs with
+       | Some sk -> MSubst (d, sk)
+       | None -> raise (Bad "nested program not derivable"))
     | 'C' -> incr i;
       let d = peek () = 'd' in
       incr i;
@@ -68,21 +87,41 @@ let parse_word (s : string) (i : int ref) : mpart list option =
   in
   word ()
 
+(* tokens: KIND#word@KIND#word...[!heredoc~delim|...] ; ends at '>' or at the end of the string *)
+and parse_prog (s : string) (i : int ref) : token list * (mpart list option * mpart list option) list =
+  let n = String.length s in
+  let toks = ref [] in
+  let k = ref 0 in
+  let fin () = !i >= n || s.[!i] = '>' || s.[!i] = '!' in
+  while not (fin ()) do
+    let j = !i in
+    while !i < n && s.[!i] <> '#' do incr i done;
+    let kd = String.sub s j (!i - j) in
+    incr i;
+    let w = if !i < n && s.[!i] = '-' then (incr i; []) else (match parse_word s i with Some x -> x | None -> []) in
+    toks := { tk = kind_of_string kd; tw = w; tidx = nat_of_int !k } :: !toks;
+    incr k;
+    if !i < n && s.[!i] = '@' then incr i
+  done;
+  let hs = ref [] in
+  if !i < n && s.[!i] = '!' then begin
+    incr i;
+    let more = ref true in
+    while !more do
+      let a = parse_word s i in
+      if !i < n && s.[!i] = '~' then incr i else raise (Bad "heredoc pair");
+      let b = parse_word s i in
+      hs := (a, b) :: !hs;
+      if !i < n && s.[!i] = '|' then incr i else more := false
+    done
+  end;
+  List.rev !toks, List.rev !hs
+
 let word_of_string (s : string) : mpart list option =
   let i = ref 0 in
   let w = parse_word s i in
   if !i <> String.length s then raise (Bad ("trailing text in word " ^ s));
   w
-
-let kind_of_string = function
-  | "AND" -> K_AND | "OR" -> K_OR | "PIPE" -> K_PIPE | "LPAREN" -> K_LPAREN | "RPAREN" -> K_RPAREN | "LAE" -> K_LAE | "RAE" -> K_RAE
-  | "BREAK" -> K_BREAK | "AMP" -> K_AMP | "SEMI" -> K_SEMI | "LT" -> K_LT | "GT" -> K_GT | "CLOBBER" -> K_CLOBBER | "APPEND" -> K_APPEND
-  | "HEREDOC" -> K_HEREDOC | "HEREDOCI" -> K_HEREDOCI | "DUPIN" -> K_DUPIN | "DUPOUT" -> K_DUPOUT | "RDWR" -> K_RDWR
-  | "IONUM" -> K_IONUM | "WORD" -> K_WORD | "NAME" -> K_NAME | "ASSIGN" -> K_ASSIGN | "BANG" -> K_BANG | "LBRACE" -> K_LBRACE
-  | "RBRACE" -> K_RBRACE | "FOR" -> K_FOR | "CASE" -> K_CASE | "ESAC" -> K_ESAC | "IN" -> K_IN | "IF" -> K_IF | "ELIF" -> K_ELIF
-  | "THEN" -> K_THEN | "ELSE" -> K_ELSE | "FI" -> K_FI | "WHILE" -> K_WHILE | "UNTIL" -> K_UNTIL | "DO" -> K_DO | "DONE" -> K_DONE
-  | "NL" -> K_NL
-  | s -> raise (Bad ("token kind " ^ s))
 
 let fields (out : string) : (string * string) list =
   List.filter_map (fun kv -> match String.index_opt kv '=' with
@@ -140,5 +179,51 @@ let judge_line (_ : string) (impl : string) : string =
              else if parserside then "ok:rejected-elsewhere:" ^ p ^ ":" ^ l ^ "." ^ c ^ ":" ^ msg
              else "ok:rejected-lexer:" ^ msg
            | _ -> "ok:rejected-other")
+      end
+  end
+
+
+(* ---- C02, derivation generator: case = src \t expected tokens[!here-documents] \t comments *)
+let sk_of_word (w : mpart list) : string = string_of_bytes (sk_word w)
+
+let dtok_judge (case : string) (impl : string) : string =
+  if String.length impl < 3 || String.sub impl 0 3 <> "ok " then "bad:" ^ impl
+  else begin
+    let cf = Array.of_list (String.split_on_char '\t' case) in
+    let i = ref 0 in
+    let etoks, ehs = parse_prog cf.(1) i in
+    if !i <> String.length cf.(1) then raise (Bad "trailing text in expected tokens");
+    let f = fields impl in
+    let get k = try List.assoc k f with Not_found -> "" in
+    match parse_tokens etoks ehs with
+    | PFuel -> "bad:model-out-of-fuel"
+    | PErr _ -> "bad:generator:expected tokens are not derivable"
+    | POk (sk, _, _) ->
+      let sk = string_of_bytes sk in
+      if get "E" <> "nil" then "bad:rejected:" ^ get "E"
+      else if get "K" <> sk then "bad:skeleton:want " ^ sk
+      else begin
+        (* delivered tokens = expected tokens, newline tokens apart *)
+        let want = List.filter_map (fun t -> if t.tk = K_NL then None else Some (t.tk, sk_of_word t.tw)) etoks in
+        let items = if get "T" = "" then [] else String.split_on_char '@' (get "T") in
+        let got = List.filter_map (fun it -> match String.split_on_char '#' it with
+            | [kd; w; _] -> let k = kind_of_string kd in if k = K_NL then None else Some (k, w)
+            | _ -> raise (Bad it)) items in
+        let is_wordy k = (k = K_WORD || k = K_NAME || k = K_ASSIGN || k = K_IONUM) in
+        let rec cmp n a b = match a, b with
+          | [], [] -> None
+          | (k1, w1) :: a', (k2, w2) :: b' ->
+            if k1 <> k2 then Some (Printf.sprintf "token %d: kind" n)
+            else if is_wordy k1 && w1 <> w2 then Some (Printf.sprintf "token %d: word want %s got %s" n w1 w2)
+            else cmp (n + 1) a' b'
+          | _ -> Some (Printf.sprintf "token count: want %d got %d" (List.length want) (List.length got)) in
+        match cmp 0 want got with
+        | Some d -> "bad:tokens:" ^ d
+        | None ->
+          let strip c = if String.length c > 0 && c.[0] = 'c' then String.sub c 1 (String.length c - 1) else c in
+          let wantc = if Array.length cf > 2 && cf.(2) <> "" then List.map strip (String.split_on_char ',' cf.(2)) else [] in
+          let gotc = if get "M" = "" then [] else List.map (fun c -> match String.split_on_char '.' c with [_; _; t] -> t | _ -> c) (String.split_on_char ',' (get "M")) in
+          if wantc <> gotc then "bad:comments:want " ^ String.concat "," wantc ^ " got " ^ String.concat "," gotc
+          else "ok"
       end
   end
